@@ -152,6 +152,35 @@ def main():
             raise E.MachineryError('negative control: corrupted ranking trace accepted')
     finally:
         E.cleanup(wd)
+    # ---- the same corollary and identity through the batch path (string columns -> mixed_rank_graph, target-only): the corrected
+    # score is a function of the rows AS GIVEN (the displaced copy reads the next rows), whatever the label balance
+    from harness import pipe_common as PC
+    pj = []
+    for k_ in range(2 if tier == 'quick' else 6):
+        r3 = random.Random(seed * 77 + k_)
+        n3 = 4000
+        tgt = [i_ % 2 for i_ in range(n3)] if k_ % 2 == 0 else [r3.randrange(2) for _ in range(n3)]      # exactly balanced / coin flips
+        r3.shuffle(tgt)
+        cols3 = {'label': [str(t_) for t_ in tgt], 'signal': [str(t_ ^ (r3.random() < 0.15)) for t_ in tgt]}
+        for card in (2, 100, 4000):
+            cols3[f'noise{card}'] = [f'v{r3.randrange(card)}' for _ in range(n3)] if card < n3 else [f'id{i_}' for i_ in r3.sample(range(n3), n3)]
+        pj.append({'op': 'rank_graph', 'columns': ['signal', 'noise2', 'label', 'noise100', 'noise4000'], 'frame': cols3, 'batches': 1,
+                   'args': {'heuristic': 'MI-numba-randomized', 'label_column': 'label', 'target_ranking_only': 'True', 'combination_number_upper_bound': 10 ** 6}})
+    for job, r in zip(pj, PC.pipe_eval(pj, modules=['pipe_ops'])):
+        if r is None or 'ok' not in r:
+            V.violation('raises:pipeline-planted', f'mixed_rank_graph failed: {PC.failure_text(r)}', {'columns': job['columns']})
+            continue
+        sc = {a_: s_ for a_, b_, s_ in r['ok'][0]['trip'] if b_ == 'label' and a_ != 'label'}
+        fr = job['frame']
+        code = lambda col: [sorted(set(fr[col])).index(v_) for v_ in fr[col]]
+        lab_codes = code('label')
+        for fn in ('signal', 'noise2', 'noise100'):
+            e = O.value(O.spec_score(code(fn), lab_codes, True), len(lab_codes))
+            if fn not in sc or not (abs(sc[fn] - e) <= MC.tol(e, 1.0)):
+                V.violation(f'corrected:pipeline-planted:{fn}', f'score {sc.get(fn)!r} of {fn} against the label through mixed_rank_graph != H(Y*|X)-H(Y|X) = {e!r} on the rows as given', {'feature': fn, 'seed': seed})
+        if 'signal' in sc and any(sc['signal'] <= v_ for k2, v_ in sc.items() if k2 != 'signal'):
+            V.violation('ranking:pipeline-planted', f'the informative feature ({sc["signal"]:.5f}) does not outrank the noise features { {k2: round(v_, 5) for k2, v_ in sc.items()} }', {'seed': seed})
+    V.count(evaluations=len(pj), nontrivial=len(pj), traces=len(pj))
     V.coverage['exhaustive'] = True
     return V.finish()
 
